@@ -253,7 +253,7 @@ func runScenario(name, tier string) *scenarioResult {
 	allPtsLimit1, allPtsLimit2 := int64(8000), int64(150)
 	if tier == "thorough" {
 		maxBound, maxExec = 4, 600000
-		allPtsLimit1, allPtsLimit2 = 250000, 500
+		allPtsLimit1, allPtsLimit2 = 45000, 500
 	}
 	res.Mode = "api-boundaries"
 	res.BoundCompleted = -1
@@ -418,7 +418,7 @@ func runRace(name string, reps int) int {
 func orchestrate(tier string) int {
 	c := newCtx("C19", tier)
 	c.Level = "model_checking"
-	c.Rule = "per scenario (2-3 logical threads on separate values or a shared read-only value): solo profiles with a deep hash of the shared region (all package-level variables + shared values) after every injected statement-level point; then every schedule of the API-call boundaries with at most 3 (4 thorough) preemptions under a controlled scheduler, each execution compared with the solo observations and solo control flow; then every statement-level point of every thread as a preemption candidate with 1 preemption (2 for scenarios under 150/500 points) whenever the scenario has at most 8000 (250000 thorough) points or any statement writes the shared region; plus a separate free-running pass of the same bodies under the race detector; non-trivial = execution with at least one preemption"
+	c.Rule = "per scenario (2-3 logical threads on separate values or a shared read-only value): solo profiles with a deep hash of the shared region (all package-level variables + shared values) after every injected statement-level point; then every schedule of the API-call boundaries with at most 3 (4 thorough) preemptions under a controlled scheduler, each execution compared with the solo observations and solo control flow; then every statement-level point of every thread as a preemption candidate with 1 preemption (2 for scenarios under 150/500 points) whenever the scenario has at most 8000 (45000 thorough) points or any statement writes the shared region; plus a separate free-running pass of the same bodies under the race detector; non-trivial = execution with at least one preemption"
 	exe, _ := os.Executable()
 	scs := allScenarios()
 	results := make([]*scenarioResult, len(scs))
